@@ -1,58 +1,84 @@
-"""Gen/Units.v: the absolute-unit arms of usvg::parser::units::convert_length (source-derived)."""
+"""Gen/UnitsTables.v: the enum-valued attributes that have no table in Gen/EnumTables.v because the writer does not store them
+as a tree enum with one default: `*Units` (per attribute: what writer.rs passes as `def` to write_units - or the constant it
+writes - against what the parser assumes for the absent attribute) and `visibility` (bool in the tree, three keywords in the
+parser).  Both directions source-derived (C08)."""
 import re
 
-PROPS = ['C17', 'C09', 'C04']
-REL = 'crates/usvg/src/parser/units.rs'
-UNITS = ['None', 'Px', 'Em', 'Ex', 'In', 'Cm', 'Mm', 'Pt', 'Pc', 'Percent']
+PROPS = ['C08']
+W = 'crates/usvg/src/writer.rs'
+SV = 'crates/usvg/src/parser/svgtree/mod.rs'
+PARSERS = ['clippath.rs', 'filter.rs', 'mask.rs', 'paint_server.rs']
+
+
+def table(api, src, ty):
+    m = re.search(r"impl<[^>]*>\s*FromValue<[^>]*>\s*for\s+%s\s*\{.*?match value \{(.*?)\n        \}" % ty, src, re.S)
+    if not m:
+        raise api.Unsupported("impl FromValue for %s not found" % ty)
+    rows = re.findall(r'"([^"]+)"\s*=>\s*Some\(%s::([A-Za-z]+)\)' % ty, m.group(1))
+    if not rows or not re.search(r"_\s*=>\s*None", m.group(1)):
+        raise api.Unsupported("impl FromValue for %s: unexpected arms" % ty)
+    return rows
 
 
 def generate(api):
-    rs = api.rs2coq
     try:
-        src = api.rd(REL)
-        params, ret, body = rs.find_fn(src, 'convert_length')
-        m = re.search(r"match\s+length\.unit\s*\{", body)
-        if not m:
-            raise api.Unsupported("`match length.unit` not found in convert_length")
-        # parse the whole `match` syntactically and keep the arms of the absolute/font-relative units;
-        # Percent is resolved against the view box elsewhere
-        start = m.start()
-        depth = 0
-        i = body.index('{', start)
-        j = i
-        while True:
-            if body[j] == '{':
-                depth += 1
-            elif body[j] == '}':
-                depth -= 1
-                if depth == 0:
-                    break
-            j += 1
-        ast = rs.Parser(rs.tokenize(body[start:j + 1])).expr()
-        if ast[0] != 'match':
-            raise api.Unsupported("convert_length: expected a match expression")
-        arms = {}
-        for pats, arm_body in ast[2]:
-            for pt in pats:
-                if pt[0] == 'ppath' and pt[1][0] == 'Unit' and pt[1][-1] not in arms:
-                    arms[pt[1][-1]] = arm_body
-        need = [u for u in UNITS if u != 'Percent']
-        missing = [u for u in need if u not in arms]
-        if missing:
-            raise api.Unsupported("convert_length arms missing for %s" % missing)
-        em = rs.Emitter(dict(dom='Q', calls={'resolve_font_size': 'FONT_SIZE_PLACEHOLDER'}))
-        out = [api.HEADER, "From RV Require Import Model.Base.\nLocal Open Scope Q_scope.\n",
-               "Inductive lunit := " + " | ".join('U' + u for u in UNITS) + ".\n",
-               "(* %s :: convert_length, arms of `match length.unit` (n = length.number, fs = resolved font size) *)" % REL,
-               "Definition convert_abs (u : lunit) (n dpi fs : Q) : option Q :=\n  match u with"]
-        for u in need:
-            s = em.expr(arms[u])
-            s = re.sub(r"\(FONT_SIZE_PLACEHOLDER [^()]*\)", "fs", s)
-            if 'PLACEHOLDER' in s:
-                raise api.Unsupported("unexpected font-size call shape in arm %s" % u)
-            out.append("  | U%s => Some %s" % (u, s))
-        out.append("  | UPercent => None\n  end.\n")
-        api.write_gen('Units.v', "\n".join(out))
-        api.ok('tables', 'units', arms=len(arms))
-    except (api.Unsupported, OSError, ValueError, IndexError) as e:
-        api.broken('table', 'units.convert_length', PROPS, e)
+        w = api.rd(W)
+        sv = api.rd(SV)
+        psrc = "\n".join(api.rd('crates/usvg/src/parser/' + p) for p in PARSERS)
+        tree = api.rd('crates/usvg/src/tree/mod.rs')
+        uparse = table(api, sv, 'Units')
+        _, _, wb = api.rs2coq.find_fn(w, 'write_units', after=r"impl XmlWriterExt for XmlWriter")
+        if not re.search(r"if\s+units\s*!=\s*def\s*\{", wb):
+            raise api.Unsupported("write_units: `if units != def` not found")
+        uwrite = re.findall(r'Units::([A-Za-z]+)\s*=>\s*"([^"]+)"', wb)
+        ctors = re.search(r"pub(?:\(crate\))? enum Units\s*\{(.*?)\}", tree, re.S)
+        ctors = re.findall(r"^\s*([A-Z][A-Za-z]+)\s*,", ctors.group(1), re.M) if ctors else []
+        if sorted(c for c, _ in uwrite) != sorted(ctors) or not ctors:
+            raise api.Unsupported("write_units: arms %s do not cover enum Units %s" % (uwrite, ctors))
+        sites = []
+        for m in re.finditer(r"\.write_units\(\s*AId::([A-Za-z]+)\s*,\s*([^,]+?)\s*,\s*Units::([A-Za-z]+)\s*,?\s*\)", w):
+            aid, val, d = m.group(1), m.group(2).strip(), m.group(3)
+            mc = re.fullmatch(r"Units::([A-Za-z]+)", val)
+            pd = set(re.findall(r"convert_units\(\s*node\s*,\s*AId::%s\s*,\s*Units::([A-Za-z]+)\s*\)" % aid, psrc))
+            pd |= set(re.findall(r"\.attribute\(AId::%s\)\s*\.unwrap_or\(Units::([A-Za-z]+)\)" % aid, psrc))
+            if len(pd) != 1:
+                raise api.Unsupported("parser default of %s: found %s" % (aid, sorted(pd)))
+            sites.append((aid, mc.group(1) if mc else None, d, pd.pop()))
+        if len(sites) < 5:
+            raise api.Unsupported("only %d write_units sites found" % len(sites))
+        # visibility
+        vparse = table(api, sv, 'Visibility')
+        md = re.search(r"impl Default for Visibility\s*\{\s*fn default\(\)\s*->\s*Self\s*\{\s*Self::([A-Za-z]+)", tree)
+        _, _, vb = api.rs2coq.find_fn(w, 'write_visibility', after=r"impl XmlWriterExt for XmlWriter")
+        mv = re.search(r'if\s*!\s*value\s*\{\s*self\.write_attribute\(AId::Visibility\.to_str\(\),\s*"([^"]+)"\);\s*\}', vb)
+        if not md or not mv:
+            raise api.Unsupported("Visibility default / write_visibility not found")
+        pv = api.rd('crates/usvg/src/parser/converter.rs') + api.rd('crates/usvg/src/parser/image.rs') + api.rd('crates/usvg/src/parser/text.rs')
+        vis_is = set(re.findall(r"visibility\s*==\s*Visibility::([A-Za-z]+)", pv))
+        if vis_is != {'Visible'} or len(re.findall(r"find_attribute\(AId::Visibility\)\.unwrap_or_default\(\)", pv)) < 3:
+            raise api.Unsupported("parser: `visible = (visibility == Visibility::Visible)` over find_attribute(..).unwrap_or_default() not found")
+        out = [api.HEADER, "From Coq Require Import String List.\nImport ListNotations.\nLocal Open Scope string_scope.\n",
+               "Inductive units := %s." % " | ".join("U_" + c for c in ctors),
+               "Definition units_all : list units := [%s]." % "; ".join("U_" + c for c in ctors),
+               "(* %s :: impl FromValue for Units *)" % SV,
+               "Definition parse_units (s : string) : option units :=\n  " +
+               "".join('if String.eqb s "%s" then Some U_%s else ' % (s, c) for s, c in uparse) + "None.",
+               "(* %s :: write_units, the match *)" % W,
+               "Definition units_name (u : units) : string := match u with %s end." % " | ".join('U_%s => "%s"' % (c, s) for c, s in uwrite),
+               "(* (attribute, Some c = the writer always passes the constant c / None = a field of the tree, `def` of the writer, default of the parser) *)",
+               "Definition units_sites : list (string * option units * units * units) := ["]
+        out.append(";\n".join('  ("%s", %s, U_%s, U_%s)' % (a, ('Some U_' + c) if c else 'None', d, p) for a, c, d, p in sites))
+        out.append("].\n")
+        out += ["Inductive visibility := %s." % " | ".join("V_" + c for _, c in vparse),
+                "(* %s :: impl FromValue for Visibility; tree/mod.rs :: impl Default *)" % SV,
+                "Definition parse_visibility (s : string) : option visibility :=\n  " +
+                "".join('if String.eqb s "%s" then Some V_%s else ' % (s, c) for s, c in vparse) + "None.",
+                "Definition default_visibility : visibility := V_%s." % md.group(1),
+                "(* parser: visible = (visibility == Visibility::%s) *)" % 'Visible',
+                "Definition visible_of (v : visibility) : bool := match v with V_Visible => true | _ => false end.",
+                "(* %s :: write_visibility: `if !value { \"%s\" }` *)" % (W, mv.group(1)),
+                'Definition write_visibility (b : bool) : option string := if b then None else Some "%s".\n' % mv.group(1)]
+        api.write_gen('UnitsTables.v', "\n".join(out))
+        api.ok('tables', 'writer.units', sites=len(sites))
+    except (api.Unsupported, OSError, ValueError, IndexError, AttributeError) as e:
+        api.broken('table', 'writer.units', PROPS, e)
